@@ -25,6 +25,7 @@ func checkC06(c *Ctx, r *Report) {
 	c06IncludeFile(c, r)
 	c06GenerateEscape(c, r)
 	c06LexerRecordEnd(c, r)
+	c06TTLDirectiveFlag(c, r, "C06.R3.ttl-directive-flag")
 }
 
 // mustPassExit is mustPass restricted to the exits accepted by isExit.
